@@ -454,6 +454,25 @@ pub fn exec(s: &Script, st: &mut Stats) -> Result<RunInfo, Violation> {
         st.add("probe.phase_sweep_phases", count as u64);
         return Ok(RunInfo { hash: hh.0, nontrivial });
     }
+    let fsw = s.c("flush_sweep");
+    if fsw > 0 {
+        // a flush of mode `fsw` (or a bare call boundary when fsw = 8) after every single input position of a
+        // short input, constant grant for all calls
+        let plain = s.blob("plain");
+        let grant = s.c_or("sweep_grant", 1 << 20);
+        let mut hh = Hasher::new();
+        let mut s2 = s.clone();
+        for p in 0..=plain.len() {
+            s2.ops = vec![vec![p as i64, grant, if fsw == 8 { 0 } else { fsw }], vec![(plain.len() - p) as i64, grant, s.c("sweep_second")]];
+            let ri = exec_one(&s2, plain, st).map_err(|mut v| {
+                v.detail = format!("[flush sweep, flush {} after input position {}] {}", fsw, p, v.detail);
+                v
+            })?;
+            hh.u(ri.hash);
+        }
+        st.add("probe.flush_sweep_positions", plain.len() as u64 + 1);
+        return Ok(RunInfo { hash: hh.0, nontrivial: true });
+    }
     exec_one(s, s.blob("plain"), st)
 }
 
